@@ -13,7 +13,7 @@ import TrionModel.Lemmas.SimpBasic
   over `lk₂`.  The two computations differ only in that the sub-trees left of the unknown name have already been
   evaluated — so the statement holds whenever these already evaluated results are fixed points of `evaluate`;
 * `plain_resumes`: this is so for the syntactic class `plain` (every sub-tree that is completed before the stop is a
-  leaf or register-free arithmetic, whose value is a constant);
+  leaf, register-free arithmetic — whose value is a constant —, or `Rn + c` / `c + Rn`);
 * `resumes_false`: it is NOT so for every tree: `evaluate` is not idempotent on its own output
   (`0 - (r1 - r0)` ↦ `-(r1 - r0)` ↦ `r0 - r1`).
 -/
@@ -274,8 +274,36 @@ def leaf : Arg → Bool
   | .const _ | .ident _ | .str _ => true
   | _ => false
 
-/-- a sub-tree whose complete value is a leaf -/
-def leafy (isReg : Bytes → Bool) (a : Arg) : Bool := leaf a || arith isReg a
+/-- `Rn + c` (`c > 0`) and `c + Rn` (`c ≠ 0`): `evaluate` leaves them as they are -/
+def regOff (isReg : Bytes → Bool) : Arg → Bool
+  | .bin .add (.ident r) (.const c) => isReg r && decide (0 < c)
+  | .bin .add (.const c) (.ident r) => isReg r && decide (c ≠ 0)
+  | _ => false
+
+/-- a sub-tree whose complete value is a fixed point of `evaluate`: a leaf, register-free arithmetic (a constant), or
+a register plus a constant -/
+def leafy (isReg : Bytes → Bool) (a : Arg) : Bool := leaf a || arith isReg a || regOff isReg a
+
+theorem regOff_cases {isReg : Bytes → Bool} {a : Arg} (h : regOff isReg a = true) :
+    (∃ r c, a = .bin .add (.ident r) (.const c) ∧ isReg r = true ∧ 0 < c) ∨
+    (∃ r c, a = .bin .add (.const c) (.ident r) ∧ isReg r = true ∧ c ≠ 0) := by
+  unfold regOff at h
+  split at h
+  · simp only [Bool.and_eq_true, decide_eq_true_eq] at h; exact .inl ⟨_, _, rfl, h.1, h.2⟩
+  · simp only [Bool.and_eq_true, decide_eq_true_eq] at h; exact .inr ⟨_, _, rfl, h.1, h.2⟩
+  · cases h
+
+theorem regOff_eval1 (lk : Bytes → Lookup) (isReg : Bytes → Bool) (r : Bytes) (c : Int) (hr : isReg r = true) (hc : 0 < c) :
+    evaluateE lk isReg (.bin .add (.ident r) (.const c)) = .ok ⟨false, none⟩ (.bin .add (.ident r) (.const c)) := by
+  have h1 : ¬ c < 0 := by omega
+  have h2 : c ≠ 0 := by omega
+  simp [evaluateE, hr, afterRawE, simplifyRawE, isBad, cval, mergeE, mergeL, mergeR, findC, preInv, neutralizeRawE,
+    stripNeg, neutralMain, neutralR, Ev.or, h1, h2, opOf]
+
+theorem regOff_eval2 (lk : Bytes → Lookup) (isReg : Bytes → Bool) (r : Bytes) (c : Int) (hr : isReg r = true) (hc : c ≠ 0) :
+    evaluateE lk isReg (.bin .add (.const c) (.ident r)) = .ok ⟨false, none⟩ (.bin .add (.const c) (.ident r)) := by
+  simp [evaluateE, hr, afterRawE, simplifyRawE, isBad, cval, mergeE, mergeL, mergeR, findC, neutralizeRawE,
+    stripNeg, neutralMain, neutralL, Ev.or, hc, opOf]
 
 /-- a sub-tree whose evaluation cannot stop at an unknown name -/
 def quiet (isReg : Bytes → Bool) : Arg → Bool
@@ -375,7 +403,7 @@ theorem leafy_stable (lk : Bytes → Lookup) (isReg : Bytes → Bool) (hn : NoDe
     (ev : Ev) (a' : Arg) (h : evaluateE lk isReg a = .ok ev a') (lk₂ : Bytes → Lookup) :
     evaluateE lk₂ isReg a' = .ok ⟨false, none⟩ a' := by
   simp only [leafy, Bool.or_eq_true] at ha
-  rcases ha with ha | ha
+  rcases ha with (ha | ha) | ha
   · cases a with
     | const v => simp only [evaluateE] at h; cases h; rfl
     | str s => simp only [evaluateE] at h; cases h; rfl
@@ -390,6 +418,9 @@ theorem leafy_stable (lk : Bytes → Lookup) (isReg : Bytes → Bool) (hn : NoDe
     | _ => simp [leaf] at ha
   · obtain ⟨v, rfl⟩ := arith_const lk isReg hn a ha ev a' h
     rfl
+  · rcases regOff_cases ha with ⟨r, c, rfl, hr, hc⟩ | ⟨r, c, rfl, hr, hc⟩
+    · rw [regOff_eval1 lk isReg r c hr hc] at h; cases h; exact regOff_eval1 lk₂ isReg r c hr hc
+    · rw [regOff_eval2 lk isReg r c hr hc] at h; cases h; exact regOff_eval2 lk₂ isReg r c hr hc
 
 /-! ## the retry, node by node -/
 
@@ -556,7 +587,12 @@ theorem arith_resumes (lk₁ lk₂ : Bytes → Lookup) (isReg : Bytes → Bool) 
 theorem leafy_resumes (lk₁ lk₂ : Bytes → Lookup) (isReg : Bytes → Bool) (hs : Sub lk₁ lk₂) (hn : NoDef lk₁) (a : Arg)
     (ha : leafy isReg a = true) : Resumes lk₁ lk₂ isReg a := by
   simp only [leafy, Bool.or_eq_true] at ha
-  rcases ha with ha | ha
+  rcases ha with (ha | ha) | ha
+  rotate_left 2
+  · intro n a₁ h
+    rcases regOff_cases ha with ⟨r, c, rfl, hr, hc⟩ | ⟨r, c, rfl, hr, hc⟩
+    · rw [regOff_eval1 lk₁ isReg r c hr hc] at h; cases h
+    · rw [regOff_eval2 lk₁ isReg r c hr hc] at h; cases h
   · intro n a₁ h
     cases a with
     | const v => simp [evaluateE] at h
